@@ -319,7 +319,7 @@ EXTRA = {
            "the sign-folded angle of the two quaternions. Face areas are compared at 1e-8 absolute.",
     "C05": " Every getter is asked twice on the same PositionGrid; the second answer is the checked one.",
     "C06": " The polygon inputs are additionally replayed at several sizes (embedding scales down to 1e-4). "
-           "Polygons are also embedded anisotropically (40:1, 50:2): long narrow faces.",
+           "Polygons are also embedded anisotropically (40:1, 50:1): long narrow faces.",
     "C07": " For rotation grids a caller first flips the half array handed out by the default getter in place (a copy on the pinned "
            "tree); the grid read afterwards is the checked one. "
            "The quick tier samples rotation grids up to N = 150 (randomQ 64, 100, 150; cube4D 64), the thorough tier every randomQ N to 272.",
